@@ -20,6 +20,9 @@ const (
 	streamWriterBatchSize = 1024
 )
 
+// noPID stands for a nil sender on the wire.
+var noPID = &actor.PID{}
+
 type streamWriter struct {
 	writeToAddr string
 	rawconn     net.Conn
@@ -208,7 +211,10 @@ func (s *streamWriter) Start() {
 
 func lookupPIDs(m map[uint64]int32, pid *actor.PID, pids []*actor.PID) (int32, []*actor.PID) {
 	if pid == nil {
-		return 0, pids
+		// "no PID" gets a table entry of its own (an empty PID, which the
+		// reader turns back into nil); index 0 would silently alias the first
+		// PID of the batch.
+		pid = noPID
 	}
 	max := int32(len(m))
 	key := pid.LookupKey()
